@@ -341,7 +341,9 @@ def main():
             report("err", f"`{sql}` raised {o['err']}", rep)
             continue
         # (1) model vs implementation, everywhere (the model is meant to be faithful outside dom too)
-        if o["t"] != m_t or o["counts"] != m_counts:
+        # (a nondeterministic merge with an UPDATE clause is outside the property and outside the model: which of the
+        #  joined source rows UPDATE ... FROM uses is the engine's choice)
+        if (o["t"] != m_t or o["counts"] != m_counts) and not (sp is None and any(c[0] == 0 for c in case[0][1])):
             report("model", f"`{sql}` on target {case[1]} source {case[2]}: implementation leaves {o['t']} counts {o['counts']}, the model of transforms_merge predicts {m_t} counts {m_counts}: "
                             "the correspondence behind Props_C12.merge_correct_partial no longer holds", dict(rep, theorem="Props_C12.merge_correct_partial"), no_input=sp is None or (o["t"] == sp[0]))
         if o["s"] != sorted(case[2]):
